@@ -118,3 +118,54 @@ Definition instant_ns (y m d h mi s f : Z) (o : option Z) : Z :=
 
 Definition time_ns (h mi s f : Z) (o : option Z) : Z :=
   ((h * 3600 + mi * 60 + s) - off0 o * 60) * 1000000000 + f.
+
+(* ---- xs:duration ------------------------------------------------------- *)
+(* durationLexicalRep ::= '-'? 'P' ((duYearMonthFrag duDayTimeFrag?) | duDayTimeFrag)
+   given generatively: each component is an optional non-empty digit string; the seconds
+   may carry a fraction *)
+Record duration_sp := mk_duration_sp {
+  du_sp_neg : bool;
+  du_sp_y : option str; du_sp_mo : option str; du_sp_d : option str;
+  du_sp_h : option str; du_sp_mi : option str;
+  du_sp_s : option (str * str)           (* integer digits, fraction digits ([] = no '.') *)
+}.
+
+Definition wf_digits (o : option str) : bool :=
+  match o with None => true | Some ds => all_digits ds && negb (Nat.eqb (length ds) 0) end.
+Definition wf_seconds (o : option (str * str)) : bool :=
+  match o with
+  | None => true
+  | Some (i, f) => all_digits i && negb (Nat.eqb (length i) 0) && all_digits f
+  end.
+Definition is_some {A} (o : option A) : bool := match o with Some _ => true | None => false end.
+
+Definition wf_duration (d : duration_sp) : bool :=
+  wf_digits (du_sp_y d) && wf_digits (du_sp_mo d) && wf_digits (du_sp_d d)
+  && wf_digits (du_sp_h d) && wf_digits (du_sp_mi d) && wf_seconds (du_sp_s d)
+  && (is_some (du_sp_y d) || is_some (du_sp_mo d) || is_some (du_sp_d d)
+      || is_some (du_sp_h d) || is_some (du_sp_mi d) || is_some (du_sp_s d)).
+
+Definition lex_comp (o : option str) (letter : N) : str :=
+  match o with Some ds => ds ++ [letter] | None => [] end.
+Definition lex_secs (o : option (str * str)) : str :=
+  match o with
+  | Some (i, []) => i ++ [83%N]
+  | Some (i, f) => i ++ [46%N] ++ f ++ [83%N]
+  | None => []
+  end.
+Definition has_time (d : duration_sp) : bool :=
+  is_some (du_sp_h d) || is_some (du_sp_mi d) || is_some (du_sp_s d).
+Definition lex_duration (d : duration_sp) : str :=
+  (if du_sp_neg d then [45%N] else []) ++ [80%N]
+  ++ lex_comp (du_sp_y d) 89 ++ lex_comp (du_sp_mo d) 77 ++ lex_comp (du_sp_d d) 68
+  ++ (if has_time d
+      then [84%N] ++ lex_comp (du_sp_h d) 72 ++ lex_comp (du_sp_mi d) 77 ++ lex_secs (du_sp_s d)
+      else []).
+Definition val_comp (o : option str) : option Z := option_map (fun ds => Z.of_N (str_val ds)) o.
+(* the text XSD assigns to the seconds: integer digits, optionally '.' fraction *)
+Definition secs_text (o : option (str * str)) : option str :=
+  match o with
+  | Some (i, []) => Some i
+  | Some (i, f) => Some (i ++ [46%N] ++ f)
+  | None => None
+  end.
